@@ -841,6 +841,16 @@ func (g *gen) litKeys(n int) []string {
 			twin = strings.ToLower(url.PathEscape(k))
 		}
 		if !seen[twin] {
+			seen[twin] = true
+			keys = append(keys, twin)
+		}
+	}
+	if len(g.cfg.AdvKeys) > 0 && g.pick(4) == 0 {
+		// a key which ends in "_" + another key of the set (fork names are made by
+		// joining with underscores), sorting before or after it
+		k := keys[g.pick(len(keys))]
+		twin := []string{"0_", "z_", "A_", "a_b_"}[g.pick(4)] + k
+		if !seen[twin] {
 			keys = append(keys, twin)
 		}
 	}
